@@ -490,6 +490,16 @@ class Expander:
             elif s.startswith("//@slice "):
                 self.do_slice(i + 1, s)
                 i += 1
+            elif s.startswith("//@fragment "):
+                j = i + 1
+                block = []
+                while j < len(lines) and lines[j].strip() != "//@end":
+                    block.append((j + 1, lines[j].strip()))
+                    j += 1
+                if j >= len(lines):
+                    raise ExtractError(f"{self.unit}:{i+1}: //@fragment without //@end")
+                self.do_fragment(i + 1, s, block)
+                i = j + 1
             elif s.startswith("//@take-all "):
                 self.do_take_all(i + 1, s)
                 i += 1
@@ -528,6 +538,75 @@ class Expander:
                                                       "readonly_board_calls": notes["readonly_board_calls"],
                                                       "havoc_bindings": notes["havoc_bindings"]})
         self.records["abstractions"].append(f"{relpath}: {impl_type}::{{{', '.join(names)}}} verified as a mechanical control-flow/board-mutation slice (conditions nondeterministic, move variables assumed to be generated moves of the current position)")
+
+    def do_fragment(self, lineno, head, block):
+        """//@fragment <file> <Impl::fn>  +  //@from-re <regex>  +  //@through-block-re <regex>  [+ //@rewrite a ~~> b]
+        Emits, VERBATIM, the run of statements of the function body that starts at the line of the (unique) from-match and
+        ends with the closing brace of the first `{..}` block that follows the (unique) through-match.  What surrounds the
+        run (signature, the receiver struct) is written in the template; the statements themselves are the repository's."""
+        parts = head.split()
+        if len(parts) != 3:
+            raise ExtractError(f"{self.unit}:{lineno}: malformed fragment directive")
+        relpath, name = parts[1], parts[2]
+        item = find_item(relpath, "method", name)
+        src = item.src
+        self.records["files"].add(relpath)
+        if item.body_open is None:
+            raise ExtractError(f"{self.unit}:{lineno}: fragment of bodiless {name}")
+        b_s, b_e = src.toks[item.body_open].e, src.toks[src.match[item.body_open]].s
+        body = src.text[b_s:b_e]
+        frm = thr = None
+        rewrites = []
+        inserts = []   # (anchor, [payload lines], d_line)
+        for d_line, d in block:
+            if inserts and not d.startswith("//@"):
+                inserts[-1][1].append(d)
+                continue
+            if d.startswith("//@before "):
+                inserts.append((d.split(None, 1)[1], [], d_line))
+            elif d.startswith("//@from-re "):
+                frm = d.split(None, 1)[1]
+            elif d.startswith("//@through-block-re "):
+                thr = d.split(None, 1)[1]
+            elif d.startswith("//@rewrite "):
+                a, b = [x.strip() for x in d.split(None, 1)[1].split("~~>", 1)]
+                rewrites.append((a, b, d_line))
+            elif d:
+                raise ExtractError(f"{self.unit}:{d_line}: unknown fragment directive {d!r}")
+        if frm is None or thr is None:
+            raise ExtractError(f"{self.unit}:{lineno}: fragment needs from-re and through-block-re")
+        ms = list(re.finditer(frm, body))
+        if len(ms) != 1:
+            raise ExtractError(f"{src.label}:{name}: fragment start anchor matches {len(ms)} times: {frm!r}")
+        start = body.rfind("\n", 0, ms[0].start()) + 1
+        ms = list(re.finditer(thr, body))
+        if len(ms) != 1:
+            raise ExtractError(f"{src.label}:{name}: fragment end anchor matches {len(ms)} times: {thr!r}")
+        if ms[0].start() < start:
+            raise ExtractError(f"{src.label}:{name}: fragment end anchor precedes its start anchor")
+        # first `{` token after the through-match, at any depth, and its partner
+        k = item.body_open + 1
+        while k < len(src.toks) and not (src.toks[k].s >= b_s + ms[0].end() and src.is_p(k, "{")):
+            k += 1
+        if k >= src.match[item.body_open]:
+            raise ExtractError(f"{src.label}:{name}: no block after fragment end anchor")
+        end = src.toks[src.match[k]].e - b_s
+        text = body[start:end]
+        first_line = src.line_of(b_s + start)
+        for a, b, d_line in rewrites:
+            if text.count(a) != 1:
+                raise ExtractError(f"{src.label}:{name}: fragment rewrite anchor occurs {text.count(a)} times: {a!r}")
+            text = text.replace(a, b)
+            self.records["rewrites"].append(f"{relpath}:{name} (fragment): `{a}` -> `{b}`")
+        out_lines = [(ln, ("repo", src.label, first_line + k2)) for k2, ln in enumerate(text.split("\n"))]
+        for anchor, payload, d_line in inserts:
+            hits = [k2 for k2, (ln, _) in enumerate(out_lines) if anchor in ln and _[0] == "repo"]
+            if len(hits) != 1:
+                raise ExtractError(f"{src.label}:{name}: fragment proof anchor occurs {len(hits)} times: {anchor!r}")
+            out_lines[hits[0]:hits[0]] = [(pl, ("tmpl", self.unit, d_line + 1 + k3)) for k3, pl in enumerate(payload)]
+        self.out.extend(out_lines)
+        self.records["takes"].append({"kind": "fragment", "file": relpath, "name": name, "lines": [first_line, first_line + text.count("\n")]})
+        self.records["abstractions"].append(f"{relpath}:{name}: only the statement run lines {first_line}-{first_line + text.count(chr(10))} is verified (verbatim), inside a receiver written in the unit template; the rest of the function is outside this unit")
 
     def do_take_all(self, lineno, head):
         parts = head.split(None, 3)
@@ -702,6 +781,20 @@ class Expander:
                 if which == "//@after":
                     pos += len(anchor)
                 ed.insert(pos, "\n" + text + "\n", origin)
+            elif d.startswith("//@rewrite-re ") or d.startswith("//@abstract-re "):
+                which, spec = d.split(None, 1)
+                if "~~>" not in spec:
+                    raise ExtractError(f"{self.unit}:{d_line}: rewrite needs `regex ~~> new`")
+                rx, new = [x.strip() for x in spec.split("~~>", 1)]
+                lo = sig_end if body_rel is not None else 0
+                ms = list(re.finditer(rx, ed.text[lo:], flags=re.S))
+                if len(ms) != 1:
+                    raise ExtractError(f"{src.label}:{item.name}: {which} regex anchor matches {len(ms)} times: {rx!r}")
+                m0 = ms[0]
+                old_text = " ".join(m0.group(0).split())
+                key = "rewrites" if which == "//@rewrite-re" else "abstractions"
+                self.records[key].append(f"{relpath}:{name}: `{old_text}` -> `{new}`")
+                ed.replace(lo + m0.start(), m0.end() - m0.start(), new, ("repo", src.label, src.line_of(ed.base + lo + m0.start())))
             elif d.startswith("//@rewrite ") or d.startswith("//@abstract ") or d.startswith("//@sig "):
                 which, spec = d.split(None, 1)
                 if "~~>" not in spec:
